@@ -32,6 +32,8 @@ func main() {
 		cmdEngineTraces(os.Args[2:])
 	case "engine-replay":
 		cmdEngineReplay(os.Args[2:])
+	case "lib-replay":
+		cmdLibReplay(os.Args[2:])
 	default:
 		fmt.Fprintln(os.Stderr, "unknown subcommand", os.Args[1])
 		os.Exit(2)
@@ -83,6 +85,7 @@ func cmdEngineTraces(args []string) {
 		prog := g.Program()
 		rules, _ := json.Marshal(prog.JS())
 		c := &Case{GRL: prog.GRL(), Parts: prog.Parts(2 + r.Intn(2)), RulesJS: rules, Variant: vs[r.Intn(len(vs))], Profile: p.Name, Listener: 1 + r.Intn(*listeners)}
+		c.Other = g.World()
 		c.Counted = json.RawMessage(`{"k":"none"}`)
 		if p.OneHeavy && g.heavy != nil {
 			c.Counted, _ = json.Marshal(g.heavy.JS())
